@@ -361,7 +361,7 @@ func runFasta(c J, emit func(J)) {
 		}
 		// GenBank record written as FASTA (whole record and a slice of it)
 		n := asInt(ns[k])
-		if n >= 2 {
+		if n >= 1 {
 			p := patternResidues(n, "acgt")
 			gb := seqio.GenBank{Fields: baseFields("GBF", gts.Linear), Table: gts.FeatureSlice{{Key: "source", Loc: gts.Range(0, n), Props: gts.Props{{"organism", "x"}}}}, Origin: seqio.NewOrigin(append([]byte(nil), p...))}
 			// a DEFINITION of 1..4 lines (the reader keeps the line breaks; FASTA wants one line)
@@ -373,13 +373,11 @@ func runFasta(c J, emit func(J)) {
 				want := p
 				region := []int{}
 				if w != nil {
-					a, b := w[0], w[1]
-					if a > b {
+					if w[0] > w[1] {
 						continue
 					}
-					seq = gts.Slice(gb, a, b)
-					want = p[a:b]
-					region = []int{a, b}
+					want = p[w[0]:w[1]]
+					region = []int{w[0], w[1]}
 				}
 				ev := J{"ev": "gbfasta", "case": id, "version": gb.Fields.Version, "definition": strings.Join(deflines, " "), "deflines": len(deflines),
 					"region": region, "gbres": bytesToInts(want), "panic": "", "desc": "", "res": []int{}}
@@ -389,6 +387,9 @@ func runFasta(c J, emit func(J)) {
 							ev["panic"] = fmt.Sprint(e)
 						}
 					}()
+					if w != nil {
+						seq = gts.Slice(gb, w[0], w[1])
+					}
 					buf := &bytes.Buffer{}
 					w := seqio.NewWriter(buf, seqio.FastaFile)
 					if _, err := w.WriteSeq(seq); err != nil {
